@@ -495,8 +495,53 @@ func firstIdent(def string) string {
 	return def
 }
 
+// stripComments blanks SQL comments (-- to the end of the line, /* ... */) that are outside quoted text.
+func stripComments(s string) string {
+	b := []byte(s)
+	for i := 0; i < len(b); i++ {
+		switch {
+		case b[i] == '\'' || b[i] == '"' || b[i] == '`':
+			q := b[i]
+			i++
+			for i < len(b) {
+				if b[i] == q {
+					if i+1 < len(b) && b[i+1] == q {
+						i += 2
+						continue
+					}
+					break
+				}
+				i++
+			}
+		case b[i] == '[':
+			for i < len(b) && b[i] != ']' {
+				i++
+			}
+		case b[i] == '-' && i+1 < len(b) && b[i+1] == '-':
+			for i < len(b) && b[i] != '\n' {
+				b[i] = ' '
+				i++
+			}
+		case b[i] == '/' && i+1 < len(b) && b[i+1] == '*':
+			end := strings.Index(s[i+2:], "*/")
+			stop := len(b)
+			if end != -1 {
+				stop = i + 2 + end + 2
+			}
+			for ; i < stop; i++ {
+				if b[i] != '\n' {
+					b[i] = ' '
+				}
+			}
+			i--
+		}
+	}
+	return string(b)
+}
+
 func parseCreateTable(sqlText string) parsedTable {
 	p := parsedTable{gen: map[string]string{}}
+	sqlText = stripComments(sqlText)
 	open := strings.Index(sqlText, "(")
 	if open == -1 {
 		return p
